@@ -1,0 +1,21 @@
+"""Verification hooks. Inactive unless the environment variable FFERFLO_EINX_VERIF=1 is set AND a harness installs a callback.
+
+choose_order(collection, site) lets a verification harness decide the order in which an unordered collection is consumed, so that every
+order (and not only the one the current hash seed happens to produce) can be explored.
+"""
+
+import os
+
+_enabled = os.environ.get("FFERFLO_EINX_VERIF") == "1"
+_callback = None
+
+
+def set_callback(callback):
+    global _callback
+    _callback = callback
+
+
+def choose_order(collection, site):
+    if not _enabled or _callback is None:
+        return collection
+    return _callback(collection, site)
